@@ -978,6 +978,17 @@ func (t *Translator) stmts(list []ast.Stmt, sc *scope, tm term, d int) []string 
 					arrow = "←"
 					doKw = " do"
 				}
+				if t.runeSubset && t.cur.monadic {
+					// a parenthesised TERM: Lean's `do` elaborator then builds `(if … ) >>= fun x => rest` instead of a
+					// join point that every arm calls (the shape the rules of BlugeProofs/C18/StemLib.lean match)
+					emit(fmt.Sprintf("let %s %s", tuple(av), arrow))
+					emit(fmt.Sprintf("  (if %s then%s", cond.s, doKw))
+					out = append(out, thenL...)
+					emit("  else" + doKw)
+					out = append(out, elseL...)
+					out[len(out)-1] += ")"
+					continue
+				}
 				emit(fmt.Sprintf("let %s %s", tuple(av), arrow))
 				emit(fmt.Sprintf("  if %s then%s", cond.s, doKw))
 				out = append(out, thenL...)
